@@ -300,7 +300,7 @@ func init() {
 		ID: "C11", Level: "exploration",
 		Rule: "at scheduled heights of generated histories (payout heights, where stake values were just recalculated, and arbitrary heights) the from-disk export is validated with Verify(), completed like `minter export` does (versions, emission, price record), imported as genesis of a second instance with initial height h+1 whose own export must equal it field by field (derived bip values/total stakes excluded and counted); after payout-height exports both chains execute the same next 20 generated blocks (no absences, no time jumps) and must return the same response codes and end with equal exports (max_gas excluded: the new chain has no block-time history by design); one evaluation = one export/import comparison or one completed follow window; distinct = (height kind, optional features present in the export)",
 		Assumptions: []string{"the new chain starts at h+1 so both chains execute the same block numbers; `minter export` itself uses h"},
-		Quick: 36, Thorough: 1200, MinEval: 100, MinDistinct: 6,
+		Quick: 36, Thorough: 360, MinEval: 100, MinDistinct: 6,
 		Run: func(ctx *WorkCtx, idx int) {
 			r := Rng(ctx.Seed, "C11", idx)
 			sc := StdScenario(idx, r, 100)
